@@ -504,10 +504,44 @@ class Run:
                 return
             self.resync()
 
+    def do_redefine_after_delete_all(self):
+        """Define, link, enable and request an event; delete all reports; define the *same* report id with other variables,
+        link and enable again: the event report carries the new variables (whatever the equipment remembered of the old ones)."""
+        rng = self.ctx.rng
+        r, c = rng.choice(RPTIDS), rng.choice(CEIDS)
+        v1 = rng.sample(VIDS, rng.randint(1, 2))
+        v2 = rng.choice([v for v in ([VIDS[0]], [VIDS[1]], [VIDS[2]], VIDS[:2], VIDS[1:], list(reversed(VIDS))) if v != v1])
+        self.hist.append(f"cycle: delete-all, define {r!r}={v1}, link {c}, enable, request; delete-all, define {r!r}={v2}, link, enable, request")
+        self.ctx.count("request.redefine_same_report_after_delete_all")
+        for vids in (v1, v2):
+            steps = [(2, 33, e5ref.encode(("L", [("U4", [1]), ("L", [])])), 2, 34),
+                     (2, 33, e5ref.encode(("L", [("U4", [1]), ("L", [("L", [idt(r), ("L", [idt(v) for v in vids])])])])), 2, 34),
+                     (2, 35, e5ref.encode(("L", [("U4", [1]), ("L", [("L", [idt(c), ("L", [idt(r)])])])])), 2, 36),
+                     (2, 37, e5ref.encode(("L", [("BOOLEAN", [True]), ("L", [idt(c)])])), 2, 38)]
+            for s, f, body, rs, rf in steps:
+                ack = self.ack(self.request(s, f, body), rs, rf)
+                if ack is None or self.bad:
+                    return
+                if ack != 0:
+                    self.violation(f"valid-S{s}F{f}-refused:cycle", ack=ack)
+                    return
+            self.resync()
+            if self.m.reports.get(r) != list(vids) or self.m.links.get(c) != [r] or not self.m.enabled.get(c):
+                self.violation("effect-differs-from-E5:cycle", reports=str(self.m.reports), links=str(self.m.links), enabled=str(self.m.enabled))
+                return
+            self.invariants(f"cycle:{vids}")
+            if self.bad:
+                return
+            self.probe_trigger(c)
+            if self.bad:
+                return
+
     def step(self):
         rng = self.ctx.rng
         r = rng.random()
-        if r < 0.36:
+        if r < 0.04:
+            self.do_redefine_after_delete_all()
+        elif r < 0.36:
             self.do_s2f33()
         elif r < 0.68:
             self.do_s2f35()
